@@ -10,6 +10,7 @@ THEOREMS = [
     "Mpir.PowmL.redc_n_exec_spec",
     "Mpir.PowmL.mpn_powm_correct",
     "Mpir.PowmL.mpz_powm_scratch_ok",
+    "Mpir.PowmL.mpn_powm_correct_upto_cutoff",
 ]
 TRUSTED = ["hand-written models lean/Mpir/Model/PowmLimb.lean: mpn_redc_n statement by statement on limb lists (mullow, "
            "mulmod_bnm1 residue, the subtraction that rebuilds the wrapped limbs, MPN_DECR_U, final subtraction / add-back); "
